@@ -58,18 +58,18 @@ type CmdSpec struct {
 	Stdout string   `json:"stdout"` // file that receives os.Stdout ("" = <dir>/stdout)
 	// StdinFailAfter >= 0 (with StdinData): fd 0 is a socket that delivers StdinFailAfter bytes
 	// of StdinData and then fails with ECONNRESET - a real read(2) error on standard input
-	StdinFailAfter int               `json:"stdin_fail_after"`
-	StdinData      []byte            `json:"-"`
+	StdinFailAfter int    `json:"stdin_fail_after"`
+	StdinData      []byte `json:"-"`
 	// StdinPipe (with StdinData and Stdin "@inherited"): fd 0 is a pipe that delivers StdinData
 	// and then end of file - standard input as `cat file | command` gives it (not seekable)
-	StdinPipe bool `json:"stdin_pipe"`
-	Knobs          map[string]int    `json:"knobs"`
-	PoolPolicy     int               `json:"pool_policy"`
-	YieldDensity   int               `json:"yield_density"`
-	Policy         int               `json:"policy"`
-	MaxSteps       int               `json:"max_steps"`
-	Sched          simrt.SubTape     `json:"sched"`
-	Env            map[string]string `json:"env"`
+	StdinPipe    bool              `json:"stdin_pipe"`
+	Knobs        map[string]int    `json:"knobs"`
+	PoolPolicy   int               `json:"pool_policy"`
+	YieldDensity int               `json:"yield_density"`
+	Policy       int               `json:"policy"`
+	MaxSteps     int               `json:"max_steps"`
+	Sched        simrt.SubTape     `json:"sched"`
+	Env          map[string]string `json:"env"`
 }
 
 type CmdOutcome struct {
